@@ -19,6 +19,8 @@ ValsOf(shape, ty) ==
     [] shape = "obj" -> {Obj(o) : o \in Objs}
 Rows == {[c |-> c, ty |-> ty] : c \in {x \in AllCfgs : Admitted(x)}, ty \in {"str", "int", "num", "dt"}} \ {r \in [c : AllCfgs, ty : {"int", "num", "dt"}] : r.c.shape # "prim"}
 Bodies == {Obj(<<IntV(1), s, on, l>>) : s \in {Absent, Str(<<120>>), Str(<<>>)}, on \in {Absent, Null, Str(<<121>>)}, l \in {Absent, Arr(<<>>), Arr(<<IntV(1), IntV(2)>>)}}
+FormStrs == {Str(<<120>>), Str(<<A, 32, 98>>), Str(<<A, AMP, 98, EQ, 99>>), Str(<<195, 169>>), Str(<<43>>), Str(<<PCT, 52, 49>>), Str(<<A, 10, 98>>), Str(<<>>), Str(<<59>>)}
+Forms == {Obj(<<a, n, l, d>>) : a \in FormStrs, n \in {Absent, IntV(7)}, l \in {Absent, Arr(<<Str(<<112>>), Str(<<113, COMMA, 114>>)>>)}, d \in {Absent, Str(<<122>>)}}
 RespCodes == {0, 100, 200, 201, 204, 302, 400, 404, 499, 500, 599}
 Resps == {[v |-> v, k |-> 0, hdr |-> h] : v \in {"ok200"}, h \in {Absent, Str(<<104>>), Str(<<A, 32, 98, COMMA, 99>>)}} \cup {[v |-> "created201", k |-> 0, hdr |-> Absent]}
          \cup {[v |-> v, k |-> k, hdr |-> h] : v \in {"pat4XX", "default"}, k \in RespCodes, h \in {Absent, Str(<<104, 52>>)}}
@@ -27,6 +29,7 @@ EmitOut ==
     [] Mode = "vals" -> SetToSeq(UNION {{[shape |-> sh, ty |-> ty, v |-> v] : v \in ValsOf(sh, ty)} : sh \in Shapes, ty \in {"str"}} \cup {[shape |-> "prim", ty |-> ty, v |-> v] : <<ty, v>> \in UNION {{<<t, w>> : w \in ValsOf("prim", t)} : t \in {"int", "num", "dt"}}})
     [] Mode = "bodies" -> SetToSeq({[b |-> b] : b \in Bodies})
     [] Mode = "resps" -> SetToSeq(Resps)
+    [] Mode = "forms" -> SetToSeq({[b |-> b] : b \in Forms})
 ASSUME ndJsonSerialize(IOEnv.VERIF_VECTORS, EmitOut)
 VARIABLE x
 Init == x = 0
